@@ -4,6 +4,7 @@ import SqlProofs.SplitValue
 import SqlProofs.Respell.All
 import SqlProofs.WsInv.WsInvariant
 import SqlProofs.WsRespell.Theorem
+import SqlProofs.WsRespell.Text
 /-!
 # C11 — parsing is insensitive to inter-token whitespace and keyword letter case
 
@@ -68,6 +69,9 @@ really is whitespace-sensitive) and `toks'` re-spells every whitespace token wit
 theorem respelled_text_lexes_equivalently : type_of% @Sql.ws_respell_lex := @Sql.ws_respell_lex
 /-- the same composed with re-casing of keywords (through `relex_case_mapped`) -/
 theorem respelled_and_recased_text_lexes_equivalently : type_of% @Sql.respell_lex := @Sql.respell_lex
+/-- text form, run by run: ANY text of the same length that keeps the non-whitespace tokens at their offsets and has arbitrary whitespace
+characters in the gaps (so `\r\n` may straddle what used to be two whitespace tokens) lexes to a `WsEquiv` token list -/
+theorem respelled_text_lexes_equivalently_runwise : type_of% @Sql.ws_respell_text := @Sql.ws_respell_text
 /-- the hypothesis is neither vacuous nor trivially true -/
 theorem wsRespellable_examples : type_of% @Sql.wsRespellable_examples := @Sql.wsRespellable_examples
 /- NOT proved: re-spellings that change the LENGTH of a whitespace run (`a  b` vs `a b`): stated as `Sql.WsRespellLexAnyConjecture : Prop`
